@@ -40,17 +40,39 @@ def fresh_history(used_trace, hist, probe):
     return fresh
 
 
+DIRT = [
+    [("g", "G91", {})], [("g", "G20", {})], [("g", "G91", {}), ("g", "G20", {})],
+    [("g", "G1 E-2 F1800", {})], [("g", "G10", {})], [("g", "M83", {})],
+    [("at", "ExcludeRegion", "disable", False)], [("g", "G92 X5 Y5 Z1", {})],
+    [("g", "G1 X35 Y35 F6000", {}), ("g", "M204 P700", {}), ("g", "M117 pending", {})],
+    [("g", "G1 E-2", {}), ("g", "G1 X35 Y35", {}), ("g", "G1 E0", {}), ("g", "G1 X80 Y80", {})],
+    [("g", "M206 X2", {})], [("g", "G1 X12 Y12 Z3 E5 F777", {})],
+]
+
+
+def dirty_print(rng):
+    """A print that is abandoned in a state that leaves something behind (C10's quantifier)."""
+    steps = [("pev", "PrintStarted"), ("g", "G28", {}), ("g", "G1 X5 Y5 Z0.3 F3000", {})]
+    for _ in range(rng.randint(0, 3)):
+        steps.extend(rng.choice(DIRT))
+    if rng.random() < 0.5:
+        steps.append(("pev", rng.choice(["PrintCancelled", "PrintFailed", "Error", "PrintDone"])))
+    return steps
+
+
 def run(tier, seed):
     from harness import pluginfam
     started = time.time()
     count = {"quick": 150, "thorough": 2500}[tier]
     hists = []
     for index in range(count):
+        # the prior history may use any frame (relative, inches, G92): only its leftovers matter
         hists.append(gen_plugin.generate(seed * 1000003 + index * 7919 + 10,
-                                         ["lifecycle", "mixed", "deferred", "hook"][index % 4]))
+                                         ["lifecycle", "mixed", "deferred", "hook"][index % 4],
+                                         exact_only=False, g90e=(index % 2 == 0)))
     mhists, mcs = pluginfam.model_guided("C10", tier, seed)
     hists = mhists + hists
-    pairs, used_traces, probes = [], [], []
+    pairs, used_traces, probes, dirts = [], [], [], []
     import random
     for index, hist in enumerate(hists):
         rng = random.Random(seed * 31 + index)
@@ -60,9 +82,15 @@ def run(tier, seed):
                                    rng.choice(["motion", "extrusion", "deferred", "at"]),
                                    length=rng.randint(10, 25), regions0=[], new_regions=0)
         gen.useInch = rng.random() < 0.3
+        # the probe generator does not know the registry: no arcs (their classification with
+        # respect to the regions could not be computed), and no margins are relied upon because
+        # both plugins receive identical input
+        gen.useArcs = False
         probe = gen.build().steps
-        used.steps = list(hist.steps) + [("pev", "SettingsUpdated"), ("pev", "PrintStarted")] + \
-            list(probe)
+        dirt = dirty_print(rng)
+        dirts.append(dirt)
+        used.steps = list(hist.steps) + dirt + \
+            [("pev", "SettingsUpdated"), ("pev", "PrintStarted")] + list(probe)
         utrace = record.run_plugin_history(used, index + 1)
         ftrace = record.run_plugin_history(fresh_history(utrace, hist, probe), index + 1,
                                            keep_state=False)
@@ -87,7 +115,9 @@ def run(tier, seed):
     byid = dict((v["id"], v) for v in verdicts)
     for index, hist in enumerate(hists):
         verdict = byid[index + 1]["v"]["C10"]
-        dirty = any(e["ev"] == "g" and e["res"] in ("suppress", "list") and e["pst"]["active"]
+        dirty = any(e["ev"] == "g" and e["pst"]["active"]
+                    and (e["res"] in ("suppress", "list")
+                         or e["in"]["code"] in ("G91", "G20", "G92", "M206", "G10"))
                     for e in used_traces[index]["ev"][:-len(probes[index]) - 2])
         if dirty:
             nontrivial.add(json.dumps([list(s) for s in hist.steps], sort_keys=True, default=str))
@@ -96,7 +126,8 @@ def run(tier, seed):
             if nviol <= 5:
                 payload = {"family": "c10", "property": "C10", "clause": verdict["c"],
                            "step": verdict["s"], "history": record.history_to_json(hist),
-                           "probe": [list(s) for s in probes[index]]}
+                           "probe": [list(s) for s in probes[index]],
+                           "dirt": [list(s) for s in dirts[index]]}
                 path = common.write_replay("C10", payload)
                 print("VIOLATION property=C10 replay=%s" % path)
                 common.log("  clause %s at probe step %d" % (verdict["c"], verdict["s"]))
@@ -134,7 +165,8 @@ def replay(payload):
     hist.steps = [tuple(s) for s in hj["steps"]]
     probe = [tuple(s) for s in payload["probe"]]
     used = gen_plugin.History(hist.seed, hist.g90e)
-    used.steps = list(hist.steps) + [("pev", "SettingsUpdated"), ("pev", "PrintStarted")] + probe
+    used.steps = list(hist.steps) + [tuple(s) for s in payload.get("dirt", [])] + \
+        [("pev", "SettingsUpdated"), ("pev", "PrintStarted")] + probe
     utrace = record.run_plugin_history(used, 1)
     ftrace = record.run_plugin_history(fresh_history(utrace, hist, probe), 1, keep_state=False)
     events = [{"txt": "", "a": {"res": a["res"], "out": [o["txt"] for o in a["out"]]},
